@@ -974,11 +974,17 @@ impl State {
                 // run the word's body only: the code compiled before it (and a definition
                 // that is still open) waits for its own run
                 self.clear_last_error();
-                while self.return_stack.len() > depth {
+                while self.return_stack.len() > depth && self.is_running() {
                     self.fetch_and_run().map_err(|e| {
                         self.set_runtime_err_location(&e);
                         e
                     })?;
+                }
+                if self.return_stack.len() > depth {
+                    // the word is used inside its own, still open definition: its body
+                    // ends where the code ends
+                    self.return_stack.truncate(depth);
+                    self.set_ip(return_to);
                 }
                 OK
             }
